@@ -30,6 +30,10 @@ CHECKS = {
          "Exploration: the whole kind x position matrix and every chain of <=4 branches over 9 condition values x else x 5 placements are enumerated; output must be the first truthy branch and the recorded condition evaluations exactly the prefix up to it; random nested chains with ! && || are compared with the reference interpreter.",
          "Truth table taken from the property statement; typed-nil slices/maps/funcs are outside it.",
          "DESIGN.md §4 C07"),
+ "C08": ("exhaustive iterable-kind x length x fixed-body sweep + rapid random loop bodies; reference interpreter (loop unrolling), map visiting order read off the output",
+         "Exploration: 21 iterable kinds x lengths 0..6 x 21 bodies that place break/continue at every interesting position (after nested loops, after function literals, inside emitting ifs after text, two ifs deep) x one/two loop variables, plus random bodies nested to depth 2, must render exactly what the reference interpreter says; nil renders nothing, non-iterables fail.",
+         "The reference interpreter is the trusted base; silent ifs in loop bodies carry control statements only; return inside loops not covered.",
+         "DESIGN.md §4 C08"),
 }
 
 NOT_BUILT = "check not built yet in this session (see DESIGN.md §4 for its plan); will be claimed once its check is committed"
